@@ -1,12 +1,13 @@
 #!/usr/bin/env python3
 """Prepare a round of seeded-change sub-agents: bin/mkseedround.py <dir> <round number>
-Creates <dir>/<ID>/ (scratch worktree of /repo HEAD) with PROPERTY.txt, ALREADY_DONE.txt, PROMPT_FULL.txt and out/."""
+Creates <dir>/<ID>/ (scratch worktree of /repo HEAD) with PROPERTY.txt, ALREADY_DONE.txt, PROMPT_FULL.txt and out/.
+Each sub-agent is then started with: "Read the file <dir>/<ID>/PROMPT_FULL.txt and carry out exactly the task it describes."
+"""
 import sys
 DIR, N = sys.argv[1], sys.argv[2]
-SRC = r'''
 import json,os,subprocess,re,glob
 props={json.loads(l)['id']:json.loads(l) for l in open('/verif/properties.jsonl')}
-base=\'\'\'You are working in a scratch git worktree of the Rust crate `e57` (cry-inc/e57: a pure-Rust reader/writer for the ASTM E57 point-cloud file format: CRC-paged binary layer, bit-packed compressed vectors, XML metadata, plus small command line tools under tools/). Your worktree is @DIR@/@ID@ . Do NOT read or touch /repo, /verif or any path outside @DIR@/@ID@ . The sandbox is offline: always pass `--offline` to cargo.
+base='''You are working in a scratch git worktree of the Rust crate `e57` (cry-inc/e57: a pure-Rust reader/writer for the ASTM E57 point-cloud file format: CRC-paged binary layer, bit-packed compressed vectors, XML metadata, plus small command line tools under tools/). Your worktree is @DIR@/@ID@ . Do NOT read or touch /repo, /verif or any path outside @DIR@/@ID@ . The sandbox is offline: always pass `--offline` to cargo.
 
 The file @DIR@/@ID@/PROPERTY.txt states a semantic property of the library that currently HOLDS on this tree. Read it, then read the source code it concerns. The tree contains about sixty recent `fix:` commits (`git log --oneline | head -70`); code added by them is as good a place for a regression as any.
 
@@ -22,7 +23,7 @@ For each change i in {1,2} write into @DIR@/@ID@/out/ :
   m<i>.md       - 3-10 lines: which part of the property is broken, what exactly is needed to trigger it, and which commands you ran to confirm (a)-(c).
 
 Verify yourself before finishing: with the change applied, the whole existing suite passes and the demo fails; with the change reverted, the demo passes. When done, restore the worktree (`git checkout -- .`, delete your demo files from tests/), leaving only the out/ directory with the six files. Finally report a short summary of the two changes (file, mechanism, trigger).
-\'\'\'
+'''
 extra={
  'C11':'The page layer types are reachable from an integration test as e57::verif_hooks::{PagedReader, PagedWriter} when the crate is compiled with RUSTFLAGS="--cfg e57_verif"; your demo may use them (it will then be run with that RUSTFLAGS; say so in the .md).',
  'C07':'The crate has a cargo feature `crc32c` (hardware accelerated CRC backend). If your demo must be run with it, write the exact text `--features crc32c` in the .md; otherwise do not mention that text.',
@@ -30,7 +31,7 @@ extra={
 }
 for i in range(1,21):
     id_='C%02d'%i
-    d=f'@DIR@/{id_}'
+    d=f'{DIR}/{id_}'
     subprocess.run(f'git -C /repo worktree add --detach {d} HEAD',shell=True,stdout=subprocess.DEVNULL,stderr=subprocess.DEVNULL)
     os.makedirs(d+'/out',exist_ok=True)
     p=props[id_]
@@ -44,7 +45,5 @@ for i in range(1,21):
         done.append(first)
     txt="Mechanisms already produced in earlier rounds for this property (do not repeat these or close variants):\n"+"\n".join(f"({k+1}) {x}" for k,x in enumerate(done))+"\n"
     open(d+'/ALREADY_DONE.txt','w').write(txt)
-    open(d+'/PROMPT_FULL.txt','w').write(base.replace('@ID@',id_).replace('@EXTRA@',extra.get(id_,'')))
-print(open('@DIR@/C16/ALREADY_DONE.txt').read()[:1500])
-'''
-exec(SRC.replace("@DIR@", DIR).replace("@N@", N))
+    open(d+'/PROMPT_FULL.txt','w').write(base.replace('@DIR@',DIR).replace('@N@',N).replace('@ID@',id_).replace('@EXTRA@',extra.get(id_,'')))
+print('prepared', DIR)
